@@ -354,6 +354,12 @@ func checkC15(r *core.Run) {
 			}
 		}
 	})
+	nl := enum.Long([]string{"a", "1", "\u00e9", "\xff", " ", "%"}, []string{"", ";", "\"", "\\", "<", ")", "javascript:x", "/*", ",", "\n", "x:y;z"}, 200, func(v string) {
+		eval(one("Width", v))
+		eval(one("Display", v))
+		eval(safehtml.StyleProperties{BackgroundImageURLs: []string{v}, FontFamily: []string{v}, Color: "red"})
+	})
+	r.Set("layer_long", fmt.Sprintf("6 padding units x 11 cores x every padding length 0..200 x 3 placements x 3 field groups: %d", nl*3))
 	r.Set("layer_lists", fmt.Sprintf("lists of 1-3 elements over %d class symbols (1 elem: length<=%d in 4 wrappings; 2 elems; 3 elems length<=1): %d", len(lclass), map[bool]int{false: 2, true: 3}[r.Thorough()], lists))
 	r.Set("evaluations", evals)
 	r.Set("distinct_nontrivial", nontriv)
